@@ -291,9 +291,16 @@ def prune (n : Node) (h : Nat) : Node :=
       let pruned := n.tree.filter (fun b => !walkUp n.tree h fuel b.id && !walkUp n.tree b.id fuel h)
       { n with tree := keep, unfin := n.unfin.filter (fun x => !pruned.any (fun p => p.id = x.id)) }
 
+/-- the early check of SetFinalisedHash: GetHighestRoundAndSetID fails or `setID < highestSetID` -/
+def staleSet (db : DB) (s : Nat) : Bool :=
+  match db.hrs with
+  | none => true
+  | some (_, hs) => decide (s < hs)
+
 /-- `bs.SetFinalisedHash(hash, round, setID)`; the Bool is "no error" -/
 def setFinalisedHash (n : Node) (h r s : Nat) : Node × Bool :=
   if !(n.unfin.any (fun b => b.id = h) || (n.db.hdr h).isSome) then (n, false)
+  else if staleSet n.db s then (n, false)   -- stale set id: rejected before any write
   else match handleFinalised n h with
     | (n, false) => (n, false)
     | (n, true) =>
